@@ -27,7 +27,7 @@ def mk_result(c, name, stat_keys, arr_keys, sizes=None):
 @register
 class merge_results(FnContract):
     name = M + "merge_results"
-    props = ["C13", "C16"]
+    props = ["C13"]
 
     def cases(self):
         out = [{"n": 1, "order": "same", "keys": "equal"}]
